@@ -48,7 +48,7 @@ def gen_case(rng, tier):
         "fam": "place",
         "ast": ast,
         "mode": mode,
-        "window": [rng.choice([0x10000000, 0x10000040, 0x1000, 0x10000100]), rng.choice([65536, 4096, 1024, 512])],
+        "window": [rng.choice([0x10000000, 0x10000040, 0x1000, 0x10000100]), rng.choice([65536, 4096, 1024, 512, 256, 200, 128, 100])],
         "solver": [rng.choice(["size", "start", "random"]), rng.randrange(1000)],
         "p": [rng.randrange(2), rng.randrange(2)],
     }
@@ -132,7 +132,7 @@ def compile_place(case):
     compat.SOLVER_ORDER["mode"], compat.SOLVER_ORDER["seed"] = case["solver"]
     ctx = compat.main().ctx.clone()
     ctx.register_memory(SnaxMemory(StringAttr("L1"), capacity=case["window"][1], start=case["window"][0]))
-    src = AG.emit(case["ast"])
+    src = AG.emit(case["ast"], case["p"])
     try:
         mod = Parser(ctx, src).parse_module()
         mod.verify()
@@ -235,7 +235,7 @@ def shrink(case):
 def sample_of(case):
     if case["fam"] == "size":
         return {"family": "size", "program": size_program(case), "dyn_bound": case["dyn_bound"]}
-    return {"family": "place", "program": AG.emit(case["ast"]), "mode": case["mode"], "window": case["window"], "solver_order": case["solver"]}
+    return {"family": "place", "program": AG.emit(case["ast"], case["p"]), "conditions": case["p"], "mode": case["mode"], "window": case["window"], "solver_order": case["solver"]}
 
 
 META = {
